@@ -516,6 +516,16 @@ def streams(ctx):
             rnd.append("".join(rng.choice(ALPHA) for _ in range(rng.randint(L + 1, 8))))
         else:
             rnd.append(rand_bytes(rng, 12, 0.6).hex())
+    # code points that text-handling code likes to treat specially (BOM, non-characters, white space and line separators, controls,
+    # quotes and backslash, case-mapping oddities, a combining mark, the edges of the encoding): alone, next to ASCII and
+    # two-byte neighbours, and in ordered pairs — none of them is special to a ByteString
+    specials = ["efbbbf", "efbfbe", "efbfbf", "efbfbd", "00", "20", "09", "0a", "0d", "7f", "c285", "c2a0", "e280a8", "e2808b",
+                "ed9fbf", "ee8080", "f0908080", "f48fbfbf", "22", "5c", "c39f", "c4b0", "cc81"]
+    sp = []
+    for x in specials:
+        sp += [x, x + "41", "41" + x, x + x, x + "c3a9", "c3a9" + x, "41" + x + "41", x + "4142", x[:-2], x[:-2] + "41"]
+    sp += [x + y for x in specials for y in specials]
+    rnd = sp + rnd
     mon, key = mk(why_c20)
     per = ("per string: 6 TryFrom kinds, 4 From kinds, split_at 0..len+1, all (a,b) index pairs, slice_ref (own, shifted window, "
            "foreign), Hash, Display/ToString/String::from/into_bytes/AsRef/Borrow, each with str parity")
@@ -547,7 +557,8 @@ def streams(ctx):
     # ---- c20p: pairs ----
     small = [s for s in ("".join(t) for n in range(0, 4) for t in itertools.product(ALPHA, repeat=n)) if py_valid(bytes.fromhex(s))]
     extra = ["f09f9880", "f09f98", "f48fbfbf", "ee8080", "efbfbf", "f0908080", "7f", "c280", "dfbf", "e0a080", "ed9fbf", "00",
-             "4100", "410000", "0000", "0041", "c2b500", "41424300", "4142430000", "00000000", "0000000000"]
+             "4100", "410000", "0000", "0041", "c2b500", "41424300", "4142430000", "00000000", "0000000000",
+             "efbbbf", "efbbbf41", "41efbbbf", "20", "4120", "2041", "0a", "410a", "c2a0", "e280a8", "22", "5c", "cc81", "41cc81"]
     extra = [e for e in extra if py_valid(bytes.fromhex(e))]
     base = small + extra
     pairs = [a + "," + b for a in base for b in base]
